@@ -81,6 +81,11 @@ chk("C07", "treemc", "exploration",
     "The live procfs of the worker process defines the input space (entries that depend on addresses or block are excluded and listed in the source); kernel 6.18.",
     "exhaustive enumeration of a generated finite input space with differential (two resolvers) and statement oracles", "DESIGN.md 4/C07")
 
+chk("C08", "sysmc", "model_checking",
+    "The configuration product the statement names is realised for real (caller privilege x mount options of the /proc the process lives with x handle constructor x base x existing/missing/masked sub-path) and every lookup is traced under ptrace with RLIMIT_NOFILE=256; on top, the handle-construction/retry protocol is explored under every single (thorough: pair of) deviating environment answers of fsopen/fsconfig/fsmount/open_tree/open(/proc)/faccessat2. Oracle: a missing path reports ENOENT; per lookup a constant number of procfs handles (<= 4) and descriptors (<= 24), termination within the horizon.",
+    SYS_NOTE + " The jail's own /proc mount plays the role of the host's /proc.",
+    "exhaustive enumeration of a finite configuration space + deviation-bounded exploration of environment answers over the traced retry protocol", "DESIGN.md 4/C08")
+
 not_applicable = [
     {"property_id": "C18", "reason": "relates static artefacts (exported symbols, header, Go/Python binding declarations); there is no behaviour, schedule or state space to enumerate - deciding it is translation validation / static comparison, a different family (DESIGN.md section 5)"},
 ]
